@@ -42,6 +42,10 @@ pub struct Req {
 pub struct Scenario {
     pub cwd_is_root: bool,
     pub reqs: Vec<Req>,
+    /// working-directory strings for background tasks started through the daemon's router
+    /// (`POST /tasks`); `{ROOT}` is replaced by the absolute workspace root
+    #[serde(default)]
+    pub task_cwds: Vec<String>,
 }
 
 pub struct C13;
@@ -111,7 +115,93 @@ pub fn generate(run_seed: u64, tier: Tier) -> Scenario {
             path: gen_path(&mut rng),
         })
         .collect();
-    Scenario { cwd_is_root: rng.chance(1, 2), reqs }
+    let cwd_is_root = rng.chance(1, 2);
+    // task working directories (own sub-stream): 1 in 5 scenarios
+    let mut t = Rng::derive(run_seed, "c13:task-cwd");
+    let mut task_cwds = Vec::new();
+    if t.chance(1, 5) {
+        let pool = [
+            ".", "sub", "sub/", "./sub", "sub//", "sub/.", "sub/../sub", "..", "../ws-old", "../ws-old/", "sub/../../ws-old", "{ROOT}", "{ROOT}/", "{ROOT}/sub", "{ROOT}-old", "{ROOT}2", "{ROOT}/../ws-old", "{ROOT}/sub/..", "/tmp", "/", "no/such", " sub", "sub ", "ünï", "./../ws-old", "sub/./../..",
+        ];
+        for _ in 0..t.range(1, 4) {
+            task_cwds.push(pool[t.usize_below(pool.len())].to_string());
+        }
+    }
+    Scenario { cwd_is_root, reqs, task_cwds }
+}
+
+/// Background tasks with seeded working-directory strings through the real router and task engine.
+/// A string that is absolute or has a parent-directory segment must be refused (the command never
+/// runs); any other task that runs must run inside the workspace root. The command reports where it
+/// ran (`pwd -P`) and leaves a marker file there.
+fn execute_task_cwds(sc: &Scenario, env: &Env, stats: &mut RunStats) -> Result<Option<Violation>, String> {
+    use crate::esim::{Engine, ProviderCfg};
+    let base = env.root.join("t");
+    let engine = Engine::new(&base, &ProviderCfg::default(), vec![], false)?;
+    let root = engine.ws.clone();
+    let root_s = root.to_string_lossy().to_string();
+    // siblings that share the root's textual prefix, and ordinary directories inside the root
+    for d in [root.join("sub"), root.join("ünï"), base.join("ws-old"), base.join("ws2")] {
+        std::fs::create_dir_all(d).map_err(|e| e.to_string())?;
+    }
+    let canon_root = std::fs::canonicalize(&root).map_err(|e| e.to_string())?;
+    for (k, raw) in sc.task_cwds.iter().enumerate() {
+        let cwd = raw.replace("{ROOT}", &root_s);
+        let escaping = cwd.starts_with('/') || has_parent_segment(&cwd);
+        let marker = format!("ran_marker_{k}.txt");
+        let (st, v) = engine.call_json("POST", "/tasks", Some(json!({"tool": "bash", "args": {"command": format!("pwd -P; echo ran > {marker}"), "cwd": cwd}})))?;
+        stats.bump("task_cwd_requests", 1);
+        let mut ran_in: Option<String> = None;
+        if st == 201 {
+            let id = v["task_id"].as_str().unwrap_or("").to_string();
+            let t0 = std::time::Instant::now();
+            loop {
+                let (_, sv) = engine.call_json("GET", &format!("/tasks/{id}"), None)?;
+                if matches!(sv["status"].as_str(), Some("exited") | Some("failed") | Some("cancelled")) {
+                    break;
+                }
+                if t0.elapsed() > std::time::Duration::from_secs(20) {
+                    return Err(format!("task with cwd {cwd:?} did not reach a terminal status"));
+                }
+                engine.settle(2);
+            }
+            let (_, ov) = engine.call_json("GET", &format!("/tasks/{id}/output?stream=stdout&offset_bytes=0&max_bytes=4096"), None)?;
+            let text = ov["content"].as_str().unwrap_or("").to_string();
+            if let Some(l) = text.lines().next() {
+                if l.starts_with('/') {
+                    ran_in = Some(l.to_string());
+                }
+            }
+        }
+        // the marker, wherever it landed
+        let mut marker_at: Option<std::path::PathBuf> = None;
+        for d in [root.clone(), root.join("sub"), root.join("ünï"), base.join("ws-old"), base.join("ws2"), base.clone(), std::path::PathBuf::from("/tmp"), std::path::PathBuf::from("/")] {
+            if d.join(&marker).exists() {
+                marker_at = Some(d.join(&marker));
+            }
+        }
+        let ran = ran_in.is_some() || marker_at.is_some();
+        if ran {
+            stats.bump("task_cwd_commands_ran", 1);
+        } else {
+            stats.bump("task_cwd_refused_or_unstartable", 1);
+        }
+        let place = ran_in.clone().or_else(|| marker_at.as_ref().and_then(|m| m.parent().map(|p| p.to_string_lossy().to_string()))).unwrap_or_default();
+        let inside = !place.is_empty() && std::fs::canonicalize(&place).map(|p| p.starts_with(&canon_root)).unwrap_or(false);
+        if let Some(m) = &marker_at {
+            if !m.starts_with(&root) {
+                let _ = std::fs::remove_file(m);
+            }
+        }
+        if ran && !inside {
+            return Ok(Some(Violation { class: "command_ran_outside_root".into(), signature: "command_ran_outside_root:task_cwd".into(), detail: format!("task #{k} with cwd {raw:?} ran its command in {place}, outside the workspace root {root_s}") }));
+        }
+        if ran && escaping {
+            return Ok(Some(Violation { class: "escaping_path_accepted".into(), signature: "escaping_path_accepted:TaskCwd".into(), detail: format!("task #{k}: the working directory {raw:?} is {} and must be refused, but the command ran (in {place})", if cwd.starts_with('/') { "absolute" } else { "a path with a parent-directory segment" }) }));
+        }
+    }
+    drop(engine);
+    Ok(None)
 }
 
 fn has_parent_segment(p: &str) -> bool {
@@ -121,6 +211,26 @@ fn has_parent_segment(p: &str) -> bool {
 pub fn execute(sc: &Scenario, env: &Env) -> (Outcome, RunStats) {
     let mut stats = RunStats::default();
     let _ = std::fs::remove_dir_all(&env.root);
+    if !sc.task_cwds.is_empty() {
+        // the engine moves the process into its workspace and points HOME at its scratch directory:
+        // both are put back, the direct-drive part below must see what it always saw
+        let prev = std::env::current_dir().ok();
+        let saved: Vec<(&str, Option<String>)> = ["HOME", "XDG_CONFIG_HOME"].iter().map(|k| (*k, std::env::var(k).ok())).collect();
+        let r = execute_task_cwds(sc, env, &mut stats);
+        let _ = std::env::set_current_dir(prev.unwrap_or_else(|| std::path::PathBuf::from("/")));
+        for (k, v) in saved {
+            match v {
+                Some(v) => std::env::set_var(k, v),
+                None => std::env::remove_var(k),
+            }
+        }
+        match r {
+            Ok(None) => {}
+            Ok(Some(v)) => return (Outcome::Violation(v), stats),
+            Err(e) => return (Outcome::Harness(e), stats),
+        }
+        let _ = std::fs::remove_dir_all(&env.root);
+    }
     let base = env.root.clone();
     let root = base.join("ws");
     let out = base.join("outside");
@@ -427,13 +537,13 @@ impl Check for C13 {
         out.into_iter().map(|s| serde_json::to_value(s).unwrap()).collect()
     }
     fn rule(&self) -> String {
-        "one evaluation = 2-16 requests (read, write, ls, grep, apply_patch add/update/delete/move-to, checkpoint create, checkpoint rewind incl. path-like ids, bash cwd) with path strings from a grammar (absolute inside/outside/sibling-with-shared-prefix, '..' at any position, '.', empty, trailing and doubled slashes, whitespace-padded, very long, unicode, in-root file names made of backslashes and dots that are checkpointed and rewound) against the real tool runner with the real auto-checkpoint hook, with the process cwd equal to or different from the root; after each request every file-system effect of the process (opens for reading included) is checked against the root, a sentinel tree around the root is compared, escaping paths must be refused and a refusal must leave the whole root incl. .rip/checkpoints unchanged; distinct = hash of (tool, path, outcome) sequence and cwd mode; non-trivial = at least 2 requests".into()
+        "one evaluation = 2-16 requests (read, write, ls, grep, apply_patch add/update/delete/move-to, checkpoint create, checkpoint rewind incl. path-like ids, bash cwd; in 1 of 5 scenarios also 1-4 background tasks with working-directory strings incl. absolute-inside, sibling-with-shared-prefix and parent segments) with path strings from a grammar (absolute inside/outside/sibling-with-shared-prefix, '..' at any position, '.', empty, trailing and doubled slashes, whitespace-padded, very long, unicode, in-root file names made of backslashes and dots that are checkpointed and rewound) against the real tool runner with the real auto-checkpoint hook, with the process cwd equal to or different from the root; after each request every file-system effect of the process (opens for reading included) is checked against the root, a sentinel tree around the root is compared, escaping paths must be refused and a refusal must leave the whole root incl. .rip/checkpoints unchanged; distinct = hash of (tool, path, outcome) sequence and cwd mode; non-trivial = at least 2 requests".into()
     }
     fn assumptions(&self) -> Vec<String> {
         vec![
             "only this process is observed: a spawned bash is judged by where it runs (pwd), not by what it opens".into(),
             "checkpoint create accepts absolute paths inside the root (C14's quantifier); everywhere else absolute paths must be refused".into(),
-            "task cwd (ripd task engine) is exercised in the whole-engine task check, not here".into(),
+            "task working directories go through the real router and task engine (POST /tasks) in 1 of 5 scenarios; where the command ran is what the command itself reports (pwd -P) and where its marker file landed".into(),
             "symlink attacks are out of scope (the property is about path strings)".into(),
         ]
     }
